@@ -139,7 +139,7 @@ func c03Run(r *sim.Run, tp *sim.Tape, randomContent bool) *c03Obs {
 				return
 			}
 			clients = append(clients, c)
-			w.publish(c.regMessage(nil))
+			w.register(c.regMessage(nil))
 		}
 		w.settle()
 		// choose the probed phantom
